@@ -179,6 +179,19 @@ CHECKS = {
             'POSIX symlink semantics of the sandbox file system; positive direction only where '
             'the lookup order is unambiguous.',
             'DESIGN.md 5 C15'),
+    'C16': ('exploration',
+            'differential testing legacy API vs independently written pylatexenc-3 formulations on '
+            'bounded-exhaustive soups x all start positions; all 120 argument strings x all spec '
+            'spellings x generated call strings',
+            'Every soup <= 3 (quick) / <= 4 (thorough) tokens over a 20-token alphabet at every '
+            'token start position, through ~25 legacy call variants, each compared (dump, pos, '
+            'len, failure parity) with the equivalent new-parser formulation; all argument strings '
+            'over {*,[,{} up to length 4 through 8-10 spellings for macros and environments on '
+            'every present/absent pattern with and without whitespace, plus the documented legacy '
+            'nodeoptarg/nodeargs views.',
+            'Documented legacy post-processing (nodeargd=None from get_latex_expression, math mode '
+            'assumed open for stop_upon_closing_mathmode) is part of the oracle.',
+            'DESIGN.md 5 C16'),
     'C17': ('exploration',
             'Hypothesis-generated sub_context() chains; differential derived-vs-fresh state on '
             'exhaustive short strings over the chain\'s own delimiter alphabet',
